@@ -7,7 +7,7 @@ import json
 import re
 
 from ..absint import new_interp, NONE, const, is_const, fmt, HInst
-from ..astutil import unparse, dotted, call_name
+from ..astutil import unparse, dotted, xdotted, call_name
 from ..names import N
 from ..common import AnalysisError, Report, read_text, repo_path
 from ..facts import facts
@@ -112,19 +112,21 @@ def rule_dialect(rep: Report, rid="C05.dialect") -> None:
            expected="cls(DIALECTS[name]) if name in DIALECTS else None", found=fmt(rv, I))
     # the table is the package-local file, loaded as UTF-8 JSON
     g = mod.globals.get("DIALECT_FILE_PATH")
-    ok = g is not None and isinstance(g, ast.Call) and dotted(g.func) == "os.path.join" and len(g.args) == 2 \
-        and unparse(g.args[0]) == "os.path.dirname(__file__)" and isinstance(g.args[1], ast.Constant) and g.args[1].value == "gherkin-languages.json"
+    ok = g is not None and isinstance(g, ast.Call) and xdotted(g.func, mod) == "os.path.join" and len(g.args) == 2 \
+        and isinstance(g.args[0], ast.Call) and xdotted(g.args[0].func, mod) == "os.path.dirname" and len(g.args[0].args) == 1 \
+        and isinstance(g.args[0].args[0], ast.Name) and g.args[0].args[0].id == "__file__" \
+        and isinstance(g.args[1], ast.Constant) and g.args[1].value == "gherkin-languages.json"
     rep.ob(rid, "the table loaded is the file shipped next to the module", ok, file=DFILE, function="gherkin.dialect",
            expected="os.path.join(os.path.dirname(__file__), 'gherkin-languages.json')", found=unparse(g) if g is not None else None)
     d = mod.globals.get("DIALECTS")
-    ok = d is not None and isinstance(d, ast.Call) and dotted(d.func) == "json.load"
+    ok = d is not None and isinstance(d, ast.Call) and xdotted(d.func, mod) == "json.load"
     with_ok = False
     for stt in mod.tree.body:
         if isinstance(stt, ast.With) and len(stt.items) == 1 and isinstance(stt.items[0].context_expr, ast.Call):
             c = stt.items[0].context_expr
             kws = {k.arg: k.value for k in c.keywords}
             enc = kws.get("encoding")
-            if dotted(c.func) == "open" and c.args and unparse(c.args[0]) == "DIALECT_FILE_PATH" and isinstance(enc, ast.Constant) \
+            if xdotted(c.func, mod) in ("open", "io.open") and c.args and unparse(c.args[0]) == "DIALECT_FILE_PATH" and isinstance(enc, ast.Constant) \
                     and str(enc.value).lower().replace("-", "") == "utf8":
                 with_ok = True
     rep.ob(rid, "DIALECTS is the JSON content of that file read as UTF-8, loaded once at import", ok and with_ok, file=DFILE, function="gherkin.dialect",
